@@ -324,14 +324,14 @@ func TestC17ConcurrentClose(t *testing.T) {
 			c.Ops = []Op17{{K: "setpid"}}
 		}
 		if lk.k.Closes != 1 {
-			hC17.Fail(t, "TestC17", c, "%d goroutines called Close concurrently: the socket was closed %d times", g, lk.k.Closes)
+			hC17.Fail(t, "TestC17ConcurrentClose", c, "%d goroutines called Close concurrently: the socket was closed %d times", g, lk.k.Closes)
 		}
 		want := 0
 		if usePID {
 			want = 1
 		}
 		if got := len(lk.k.Sent) - sentBefore; got != want {
-			hC17.Fail(t, "TestC17", c, "%d goroutines called Close concurrently (SetPID used: %v): %d requests sent, want %d", g, usePID, got, want)
+			hC17.Fail(t, "TestC17ConcurrentClose", c, "%d goroutines called Close concurrently (SetPID used: %v): %d requests sent, want %d", g, usePID, got, want)
 		}
 		hC17.Class("concurrent-close")
 		hC17.NonTrivial(hx.FP("cc", i), func() string { return fmt.Sprintf("concurrent Close from %d goroutines, SetPID used: %v", g, usePID) })
